@@ -92,7 +92,8 @@ LOGSPECS = {
    [(G,"lexLt_fmt20","memory_offsets_lexicographic"),(G,"maxInt64_lt","int64_fits_20_digits"),(G,"mem_log","memory_log"),(G,"mem_paged","memory_satisfies_contract"),(G,"mem_stream_eq_read","memory_stream_eq_read"),(G,"mem_offsets_table","memory_offsets_table"),
     (G,"sqlParse_decimal","sqlite_offset_roundtrip"),(G,"sql_log","sqlite_log"),(G,"sql_paged","sqlite_satisfies_contract_numeric"),(G,"sql_garbage_rejected","sqlite_garbage_rejected"),(G,"sql_offsets_table","sqlite_offsets_table"),(G,"sqlite_offsets_not_lex","sqlite_offsets_not_lex"),
     (G,"chain_reads_reproduce_log","chain_reads_reproduce_log"),(G,"resume_from_event_offset","resume_from_event_offset"),
-    (G,"lexLt_fmt10","ds_offsets_lexicographic"),(G,"ds_limit_loses_events","ds_limit_loses_events"),(G,"ds_event_offset_not_resumable","ds_event_offset_not_resumable"),(G,"ds_read_untruncated_partial","ds_read_untruncated_partial")]),
+    (G,"lexLt_fmt10","ds_offsets_lexicographic"),(G,"ds_limit_loses_events","ds_limit_loses_events"),(G,"ds_event_offset_not_resumable","ds_event_offset_not_resumable"),(G,"ds_read_untruncated_partial","ds_read_untruncated_partial"),
+    (G,"sqlite_saved_offset_not_verbatim","sqlite_saved_offset_not_verbatim")]),
  "C11": ("Replay delivers every event after the offset, or says that it did not",
    "Models: M4 (`Ebu/Model/Replay.lean`) over M3. Fault script: the callback fails at call k, the context is cancelled during call k, the j-th Read fails.",
    [(G,"replayStream_complete","stream_complete"),(G,"replayStream_prefix","stream_prefix_on_fault"),(G,"replaySqlBatched_complete","sqlite_batched_complete"),(G,"replaySqlBatched_prefix","sqlite_batched_prefix_on_fault"),
@@ -445,6 +446,17 @@ EXTRAS3 = {
 }
 
 EXTRAS4 = {
+ "C12": ("Ebu.Proofs.Log", """/-! ### KNOWN FINDING: positions kept in the SQLite store for events kept in a MemoryStore (`WithSubscriptionStore`) -/
+
+/-- KNOWN FINDING (C12-sqlite-subscription-store-rewrites-foreign-offsets): the SQLite store keeps saved positions as
+integers, so the memory store's offset of record 3 comes back as "3"; the memory store compares offsets as strings and
+finds nothing after "3" although records 4, 5 and 6 follow the saved offset – a resumed subscription never sees them -/
+theorem sqlite_positions_lose_memory_events :
+    ((Ebu.Log.Sql.save {} "s" (Ebu.Log.fmt20 3)).map (fun s => s.load "s")) = some (Ebu.Log.decimal 3) ∧
+    (Ebu.Log.mem6.stream (Ebu.Log.fmt20 3)).map (·.2) = [4, 5, 6] ∧
+    Ebu.Log.mem6.stream (Ebu.Log.decimal 3) = [] ∧ (Ebu.Log.mem6.read (Ebu.Log.decimal 3) 0).1 = [] :=
+  ⟨Ebu.Log.sqlite_saved_offset_not_verbatim.1, Ebu.Log.sqlite_positions_lose_memory_events⟩
+"""),
  "C06": ("Ebu.Proofs.ConcTrace\nimport Ebu.Proofs.ConcTermination", '/-! ### every asynchronous delivery runs exactly once (M2 with its trace, `Ebu/Spec/ConcTrace.lean`) -/\n\n/-- an async goroutine performs at most one asynchronous delivery – the one it was started for (right registration,\ntype and value) – under every schedule -/\ntheorem async_delivery_at_most_once (progs : List (List Ebu.Conc.Op)) (x : Ebu.Conc.SysT) (h : Ebu.Conc.ReachableT progs x)\n    (i : Nat) (th : Ebu.Conc.Thread) (j : Ebu.Conc.Job) (hi : x.s.ths[i]? = some th) (hj : th.job = some j) :\n    Ebu.Conc.asyncEntersOf i x.tr = [] ∨ Ebu.Conc.asyncEntersOf i x.tr = [Ebu.Conc.Obs.enter j.reg.rid j.ty j.v true] :=\n  Ebu.Conc.async_at_most_once h i th j hi hj\n\n/-- … and once the goroutine has finished it has performed it exactly once, provided the publish context is still live\n(contexts are only ever cancelled, so "live now" means "live throughout") -/\ntheorem async_delivery_exactly_once (progs : List (List Ebu.Conc.Op)) (x : Ebu.Conc.SysT) (h : Ebu.Conc.ReachableT progs x)\n    (i : Nat) (th : Ebu.Conc.Thread) (j : Ebu.Conc.Job) (hi : x.s.ths[i]? = some th) (hj : th.job = some j)\n    (hd : th.pc = .done) (hl : x.s.sh.live j.ctx = true) :\n    Ebu.Conc.asyncEntersOf i x.tr = [Ebu.Conc.Obs.enter j.reg.rid j.ty j.v true] :=\n  Ebu.Conc.async_exactly_once_when_done h i th j hi hj hd hl\n\n/-- every goroutine announced by the publisher exists, and the goroutines of the test program never perform an\nasynchronous delivery themselves -/\ntheorem spawned_goroutines_exist (progs : List (List Ebu.Conc.Op)) (x : Ebu.Conc.SysT) (h : Ebu.Conc.ReachableT progs x) :\n    (x.tr.filter (fun p => match p.2 with | .spawned _ => true | _ => false)).length =\n      (x.s.ths.filter (fun th => th.job.isSome)).length :=\n  Ebu.Conc.spawned_count h\n\n/-- LIVENESS at the end of every maximal run: under the rank hypothesis (the one documented exception of C03) a state\nfrom which no goroutine can step is quiescent – every goroutine has finished, nothing is in flight – and every\nasynchronous delivery whose publish context is live has run exactly once; in particular a goroutine blocked in `Wait`\nis never left behind -/\ntheorem maximal_run_delivers_everything (ρ : Nat → Nat) (progs : List (List Ebu.Conc.Op)) (hr : Ebu.Conc.Ranked ρ progs)\n    (x : Ebu.Conc.SysT) (h : Ebu.Conc.ReachableT progs x) (hmax : ¬ x.s.canStep) :\n    x.s.allDone ∧ x.s.sh.inflight = 0 ∧\n    ∀ i th j, x.s.ths[i]? = some th → th.job = some j → x.s.sh.live j.ctx = true →\n      Ebu.Conc.asyncEntersOf i x.tr = [Ebu.Conc.Obs.enter j.reg.rid j.ty j.v true] :=\n  Ebu.Conc.maximal_run_delivers_everything ρ progs hr h hmax\n\n/-- `Wait` returns, and every goroutine finishes, after finitely many steps whatever the scheduler does: under the strict\nrank hypothesis every schedule is finite and can be continued to a quiescent end -/\ntheorem wait_eventually_returns (ρ : Nat → Nat) (progs : List (List Ebu.Conc.Op)) (hr : Ebu.Conc.RankedStrict ρ progs) :\n    (∃ bound : Nat, ∀ (sched : List Nat) (s : Ebu.Conc.Sys),\n      Ebu.Conc.runSched (Ebu.Conc.initSys progs) sched = some s → sched.length ≤ bound) ∧\n    (∀ s, Ebu.Conc.Reachable progs s →\n      ∃ (sched : List Nat) (s2 : Ebu.Conc.Sys), Ebu.Conc.runSched s sched = some s2 ∧ s2.allDone ∧ s2.sh.inflight = 0) :=\n  ⟨Ebu.Conc.runs_terminate ρ progs hr, fun s h => Ebu.Conc.every_run_completes ρ progs hr s h⟩\n\n/-- the traced system is the plain one with bookkeeping: the two reachability notions coincide -/\ntheorem trace_is_bookkeeping (progs : List (List Ebu.Conc.Op)) :\n    (∀ x, Ebu.Conc.ReachableT progs x → Ebu.Conc.Reachable progs x.s) ∧\n    (∀ s, Ebu.Conc.Reachable progs s → ∃ tr, Ebu.Conc.ReachableT progs ⟨s, tr⟩) :=\n  ⟨fun _ h => Ebu.Conc.reachableT_reachable h, fun _ h => Ebu.Conc.reachable_has_trace h⟩\n\n/-- why deliveries are counted with `asyncEntersOf`: the goroutine of an async handler also enters the synchronous\nhandlers of what that handler publishes -/\ntheorem nested_sync_entries_are_not_deliveries :\n    ∃ progs x i th j, Ebu.Conc.ReachableT progs x ∧ x.s.ths[i]? = some th ∧ th.job = some j ∧ th.pc = .done ∧\n      x.s.sh.live j.ctx = true ∧\n      ¬(Ebu.Conc.entersOf i x.tr = [] ∨ Ebu.Conc.entersOf i x.tr = [Ebu.Conc.Obs.enter j.reg.rid j.ty j.v true]) ∧\n      Ebu.Conc.asyncEntersOf i x.tr = [Ebu.Conc.Obs.enter j.reg.rid j.ty j.v true] :=\n  Ebu.Conc.entersOf_counterexample\n'),
  "C07": ("Ebu.Proofs.ConcTrace", '/-! ### every event dispatched to an Async(+Sequential) handler is delivered exactly once (M2 with its trace) -/\n\n/-- the goroutine started for one event of an Async (+Sequential) handler delivers exactly that event to exactly that\nregistration, at most once – and exactly once when it has finished and the publish context is live -/\ntheorem async_sequential_delivery_exactly_once (progs : List (List Ebu.Conc.Op)) (x : Ebu.Conc.SysT)\n    (h : Ebu.Conc.ReachableT progs x) (i : Nat) (th : Ebu.Conc.Thread) (j : Ebu.Conc.Job)\n    (hi : x.s.ths[i]? = some th) (hj : th.job = some j) :\n    (Ebu.Conc.asyncEntersOf i x.tr = [] ∨ Ebu.Conc.asyncEntersOf i x.tr = [Ebu.Conc.Obs.enter j.reg.rid j.ty j.v true]) ∧\n    (th.pc = .done → x.s.sh.live j.ctx = true →\n      Ebu.Conc.asyncEntersOf i x.tr = [Ebu.Conc.Obs.enter j.reg.rid j.ty j.v true]) :=\n  ⟨Ebu.Conc.async_at_most_once h i th j hi hj, fun hd hl => Ebu.Conc.async_exactly_once_when_done h i th j hi hj hd hl⟩\n\n/-- no goroutine waits for a turn or a Sequential mutex for ever: under the rank hypothesis every maximal run ends with\nevery goroutine finished -/\ntheorem no_invocation_starves (ρ : Nat → Nat) (progs : List (List Ebu.Conc.Op)) (hr : Ebu.Conc.Ranked ρ progs)\n    (x : Ebu.Conc.SysT) (h : Ebu.Conc.ReachableT progs x) (hmax : ¬ x.s.canStep) : x.s.allDone :=\n  (Ebu.Conc.maximal_run_delivers_everything ρ progs hr h hmax).1\n'),
 }
